@@ -1,4 +1,72 @@
-import ErgoModel.Exec
+/-
+  C07 — The dependency graph stays acyclic, same-kind and between live items.
+-/
+import ErgoProofs.Lemmas.ConcReach
 namespace Ergo
-theorem C07_placeholder : True := trivial
+
+/-- the cycle test is exact: `hasCycle g f t` ⇔ adding f→t would close a cycle (f = t or t ⇝ f) -/
+theorem C07_cycle_test_exact (g : Graph) (f t : Id) : hasCycle g f t = true ↔ f = t ∨ Path g.deps t f :=
+  hasCycle_iff g f t
+
+/-- after any sequence of commands: no cycle, no self-edge, edges only between live items of the same kind, none at a pruned id -/
+theorem C07_inv_reach (log : List Event) (h : ReachOK log) :
+    ∃ g, replay log = .ok g ∧ Inv07 g ∧ (∀ e ∈ g.deps, e.1 ≠ e.2) ∧ (∀ e ∈ g.deps, e.1 ∉ g.tombs ∧ e.2 ∉ g.tombs) := by
+  obtain ⟨g, hr, hinv⟩ := reach_replay log h
+  refine ⟨g, hr, hinv.i07, ?_, hinv.ok.wf.deps_not_tombed⟩
+  intro e he hee
+  have := hinv.i07.acyclic e.1 e.2 (by simpa using he)
+  exact this (hee ▸ Path.refl e.1)
+
+/-- … and after any interleaving of concurrent commands (in particular concurrent `sequence`s with opposite edges) -/
+theorem C07_inv_concurrent (log0 : List Event) (envs : List (Env × Sec)) (nr : Nat) (s : Proc.Sys)
+    (h : Proc.Reachable (Proc.Sys.init log0 (envs.map fun (es : Env × Sec) => secDecide es.1 es.2) nr) s)
+    (h0 : SecReach log0) (hok : ∀ es ∈ envs, SecOK es.1 es.2)
+    (hclock : ∀ (i p : Nat) (snap : List Event) (w : Write) (g : Graph), s.commits[i]? = some (p, snap, w) → replayRaw snap = .ok g →
+               ∀ es : Env × Sec, envs[p]? = some es → EnvOK g es.1) :
+    ∃ g, replayRaw s.log = .ok g ∧ Inv07 g := by
+  obtain ⟨g, hr, hinv⟩ := secReach_allInv _ (conc_secReach log0 envs nr s h h0 hok hclock)
+  exact ⟨g, hr, hinv.i07⟩
+
+/-- an accepted edge request satisfies every rule; a request breaking one is refused -/
+theorem C07_link_accepted_only_if (g : Graph) (f t : Id) (h : linkCheck g false f t = .ok ()) :
+    g.tombed f = false ∧ g.tombed t = false ∧ f ≠ t ∧ ¬ Path g.deps t f ∧
+    ∃ a b, g.find? f = some a ∧ g.find? t = some b ∧ a.isEpic = b.isEpic := by
+  unfold linkCheck at h
+  simp only [bind, Except.bind, pure, Except.pure, throw, throwThe, MonadExceptOf.throw] at h
+  cases htf : g.tombed f <;> simp only [htf] at h
+  · cases htt : g.tombed t <;> simp only [htt] at h
+    · cases hf : g.find? f with
+      | none => simp [hf] at h
+      | some a =>
+        cases hb : g.find? t with
+        | none => simp [hf, hb] at h
+        | some b =>
+          simp only [hf, hb] at h
+          by_cases hft : f = t
+          · simp [hft] at h
+          · by_cases hk : a.isEpic = b.isEpic
+            · by_cases hcyc : hasCycle g f t = true
+              · simp [hft, hk, hcyc] at h
+              · refine ⟨rfl, rfl, hft, ?_, a, b, rfl, rfl, hk⟩
+                intro hp
+                exact hcyc ((hasCycle_iff g f t).2 (Or.inr hp))
+            · have : (a.isEpic != b.isEpic) = true := by simpa using hk
+              simp [hft, this] at h
+    · simp at h
+  · simp at h
+
+/-- `sequence rm A B` removes exactly the edge B→A and nothing else -/
+theorem C07_rm_exact (g : Graph) (a b : Id) (ha : g.tombed a = false) (hb : g.tombed b = false) :
+    applyEvent g (.unlink b a true) = .ok { g with deps := g.deps.filter (· != (b, a)) } := by
+  simp [applyEvent, ha, hb]
+
+/-- deps and rdeps shown for two items mirror each other -/
+theorem C07_mirror (g : Graph) (a b : Id) : a ∈ g.depsOf b ↔ b ∈ g.rdepsOf a := by
+  simp only [Graph.depsOf, Graph.rdepsOf, List.mem_map, List.mem_filter]
+  constructor
+  · rintro ⟨e, ⟨he, h1⟩, h2⟩
+    exact ⟨e, ⟨he, by simpa using h2⟩, by simpa using h1⟩
+  · rintro ⟨e, ⟨he, h1⟩, h2⟩
+    exact ⟨e, ⟨he, by simpa using h2⟩, by simpa using h1⟩
+
 end Ergo
